@@ -388,6 +388,7 @@ func (s *sched) newG(site string) *G {
 //go:norace
 func trampoline(g *G, fn func()) {
 	defer func() {
+		r := recover()
 		raceReleaseMerge(unsafe.Pointer(endTok))
 		if g.dead {
 			raceDisable()
@@ -395,7 +396,7 @@ func trampoline(g *G, fn func()) {
 			raceEnable()
 			return
 		}
-		if r := recover(); r != nil {
+		if r != nil {
 			buf := make([]byte, 16384)
 			buf = buf[:runtime.Stack(buf, false)]
 			msg, stk := fmt.Sprint(r), string(buf)
